@@ -153,6 +153,12 @@ let handle (line : string) : string =
        | Inl t -> "ok " ^ enc_str t
        | Inr NSyntax -> "syntaxerror"
        | Inr NLookup -> "keyerror")
+  | ["gsplit"; fl; isb; p] ->
+      (match gsplit (z_of_int (int_of_string fl)) (dec_bool isb) (dec_str p) with
+       | Inr GValue -> "valueerror"
+       | Inl parts ->
+           "ok " ^ enc_list (fun g -> Printf.sprintf "%s:%s%s%s%s%s" (enc_str g.gp_text) (enc_bool g.gp_magic) (enc_bool g.gp_gstar)
+                                        (enc_bool g.gp_gstarlong) (enc_bool g.gp_dironly) (enc_bool g.gp_drive)) parts)
   | ["escape"; isb; p] -> enc_str (escape (dec_bool isb) (dec_str p))
   | ["ismagic"; isb; fl; p] -> enc_bool (is_magic (dec_bool isb) (z_of_int (int_of_string fl)) (dec_str p))
   | ["wcwalk"; follow; aborted; root; lst; lk; vfo; vfi; mk; sk] ->
